@@ -35,13 +35,15 @@ ASSUMPTIONS = ['script bodies are not required to be valid Sieve (the '
                'names are valid UTF-8 without NUL/CR/LF; RENAMESCRIPT onto '
                'itself may answer OK or NO']
 BUDGET = {'quick': (250, 16), 'thorough': (6000, 16)}
+CASE_CPU_BUDGET = 20.0
 
 NAMES = ['a', 'b', 'c', 'main', 'x y', 'q"t', 'b\\s', 'é', '中文', 'N' * 200,
-         '', 'A', 'a ', '{5}', 'ACTIVE']
+         '', 'A', 'a ', '{5}', 'ACTIVE', 'n{2+}']
 BODIES = [b'keep;', b'', b'discard;\r\n', b'if true { keep; }',
           b'\x00\x01\xff', b'"quoted" \\back', b'x' * 4096, b'line1\nline2',
           b'# comment\r\nrequire "fileinto";\r\nfileinto "x";\r\n', b'\r\n',
-          b'{3}', b'OK\r\n', b'x' * 4000]
+          b'{3}', b'OK\r\n', b'x' * 4000, b'keep; # {3+}', b'{0+}',
+          b'a\r\n{1+}']
 OPS = ['put'] * 5 + ['setactive'] * 4 + ['delete'] * 4 + ['rename'] * 4 + [
     'get', 'get', 'list', 'havespace', 'check', 'noop', 'capability',
     'unauth', 'login-alice', 'login-alice', 'login-bob', 'login-bob',
